@@ -70,3 +70,33 @@ def gen_append_io(repo):
             "/-- the append branch rolls the footer back on failure -/\n"
             "def rollsBack : Bool := handlerOps == [\"seek\", \"write\", \"truncate\"] && reraises\n"
             "end PqV.Gen.AppendIO\n")
+
+
+@register("Access")
+def gen_access(repo):
+    """ParquetFile.head: is the loop variable `i` bound before the `for` loop (so that a dataset
+    with zero row groups does not hit an unbound name)?"""
+    src = open(os.path.join(repo, "fastparquet", "api.py")).read()
+    tree = ast.parse(src)
+    cls = [n for n in tree.body if isinstance(n, ast.ClassDef) and n.name == "ParquetFile"][0]
+    head = [n for n in cls.body if isinstance(n, ast.FunctionDef) and n.name == "head"][0]
+    bound = False
+    loop_var = None
+    for st in head.body:
+        if isinstance(st, ast.For):
+            t = st.target
+            names = [e.id for e in (t.elts if isinstance(t, ast.Tuple) else [t]) if isinstance(e, ast.Name)]
+            loop_var = names[0] if names else None
+            break
+        if isinstance(st, ast.Assign):
+            for tg in st.targets:
+                for e in (tg.elts if isinstance(tg, ast.Tuple) else [tg]):
+                    if isinstance(e, ast.Name) and e.id == "i":
+                        bound = True
+    if loop_var is None:
+        raise Unsupported("ParquetFile.head no longer has the for-loop shape the model assumes")
+    return ("-- REGENERATED on every run by tools/translate_callsites.py from fastparquet/api.py — do not edit\n"
+            "namespace PqV.Gen.Access\n"
+            f"/-- `ParquetFile.head` (line {head.lineno}): the index used after the loop is bound before it -/\n"
+            f"def headInitialisesI : Bool := {'true' if bound else 'false'}\n"
+            "end PqV.Gen.Access\n")
